@@ -24,6 +24,8 @@ for d in ("litex/soc/cores/clock", "litex/soc/interconnect/axi"):
         files.add(os.path.relpath(p, REPO))
 out = {}
 eqs = {}
+tops = {}
+defs = {}
 n = 0
 for rel in sorted(files):
     path = os.path.join(REPO, rel)
@@ -31,6 +33,9 @@ for rel in sorted(files):
         continue
     tree = names.canon_consts(names.canon_compare(ast.parse(open(path).read())))
     eqs[rel] = sorted(names.eq_pairs(tree))
+    tops[rel] = sorted({x.name for x in tree.body if isinstance(x, (ast.FunctionDef, ast.ClassDef))} |
+                       {t.id for x in tree.body if isinstance(x, ast.Assign) for t in x.targets if isinstance(t, ast.Name)})
+    defs[rel] = {sname: names.nested_defs(node) for sname, node in names.scopes(tree)}
     ent = {}
     for sname, node in names.scopes(tree):
         fp = names.fingerprints(node)
@@ -43,5 +48,5 @@ for rel in sorted(files):
 with open(names.TABLE, "w") as f:
     json.dump(out, f, indent=0, sort_keys=True)
 with open(names.EQTABLE, "w") as f:
-    json.dump({k: v for k, v in eqs.items() if v}, f, indent=0, sort_keys=True)
+    json.dump({"eq": {k: v for k, v in eqs.items() if v}, "top": tops, "defs": defs}, f, indent=0, sort_keys=True)
 print(f"{len(out)} files, {sum(len(v) for v in out.values())} scopes, {n} local names -> {names.TABLE} ({os.path.getsize(names.TABLE)//1024} KB)")
